@@ -122,7 +122,7 @@ def execute(case):
         return res
     out = judge(case, rec, res.violations)
     pname = case["policy"]["name"]
-    res.classes = [f"policy={pname}"]
+    res.classes = [f"policy={pname}"] + ([case["shape"]] if case.get("shape") else [])
     if out:
         placed, offered = out
         occupied = any(t.state in (TaskState.RUNNING, TaskState.SCHEDULED) for t in rec["state"]["tasks"].values())
@@ -155,7 +155,25 @@ def greedy_cases(tier):
 
 
 def gurobi_cases(tier):
-    return SC.call_cases(policies=("ILP", "TetriSched_Gurobi"), max_tasks=5, batching=False)
+    @st.composite
+    def s(draw):
+        case = draw(SC.call_cases(policies=("ILP", "TetriSched_Gurobi"), max_tasks=5, batching=False))
+        if case["policy"]["name"] == "TetriSched_Gurobi" and draw(st.integers(0, 2)) == 0:
+            # a congested plan-ahead window: more independent work than one small worker can take inside a short window, no
+            # deadline pressure - the planner fills the window up to its very last slot
+            n = draw(st.integers(3, 5))
+            now = case["now"]
+            case["cluster"] = [{"name": "P0", "workers": [{"name": "P0W0", "resources": [["CPU", draw(st.integers(1, 2))]]}]}]
+            case["profiles"] = [{"name": "pr0", "strategies": [{"runtime": draw(st.integers(1, 4)), "resources": {"CPU": 1}, "batch": 1}]}]
+            case["graphs"] = [{"name": f"G{i}", "jobs": [{"name": f"G{i}_j0", "profile": 0, "children": [], "conditional": False, "terminal": False, "probability": 1.0}],
+                               "release_time": draw(st.sampled_from([0, now])), "deadline": now + 60} for i in range(n)]
+            case["completed"], case["scheduled"], case["retracted"] = [], [], []
+            case["running"] = [{"graph": "G0", "job": "G0_j0", "pool": 0, "worker": 0, "strategy": 0, "elapsed": 0, "overrun": 0}] if draw(st.booleans()) else []
+            case["policy"].update(enforce_deadlines=False, plan_ahead=draw(st.sampled_from([4, 6, 12])), time_discretization=draw(st.sampled_from([1, 2, 3])))
+            case["shape"] = "congested_window"
+        return case
+
+    return s()
 
 
 def commitment_cases(tier):
